@@ -233,3 +233,52 @@ class ApplyOnRuleApplicable(Contract):
 
     def frame_ok(self, I, inp, obj, name):
         return obj is inp["rule"].fields["detection"] or name in ("parent",)
+
+
+@register
+class GlobalFilterRulesField(Contract):
+    """SigmaGlobalFilter.from_dict, the 'rules' field: the word any (in any case) or an empty list mean every rule; a single string is ONE
+    reference to exactly that name or id as written; a list is one reference per entry as written; anything else, or no field, is an error"""
+    id = "C11.SigmaGlobalFilter.from_dict[rules]"
+    target = "sigma.filters:SigmaGlobalFilter.from_dict"
+    props = ("C11", "C07")
+    cases = ("any", "ANY", "scalar", "list2", "empty_list", "number", "missing")
+    assumed = ["SigmaDetection.from_definition and the class constructor are abstract"]
+
+    def setup(self, E):
+        E.summaries["sigma.filters:SigmaGlobalFilter"] = lambda I, so, a, k: SObj("Built", {"a": list(a), "k": dict(k)})
+        E.summaries["sigma.rule.detection:SigmaDetection.from_definition"] = lambda I, so, a, k: SObj("Det", {"of": a[0]})
+        E.summaries["sigma.correlations:SigmaRuleReference"] = lambda I, so, a, k: SObj("Ref", {"reference": a[0]})
+
+    def args(self, I, case):
+        name, n2 = I.fresh("rule_name", "str"), I.fresh("rule_name2", "str")
+        low = z3.Function("str.lower", z3.StringSort(), z3.StringSort())
+        I.ctx.assume(low(name.t) != z3.StringVal("any"))
+        d = {"sel": {"f": 1}, "condition": "not sel"}
+        val = {"any": "any", "ANY": "ANY", "scalar": name, "list2": [name, n2], "empty_list": [], "number": 5}.get(case)
+        if case != "missing":
+            d["rules"] = val
+        return {"self": ClassRef(I.E.index.lookup("sigma.filters:SigmaGlobalFilter")), "args": [d], "name": name, "n2": n2, "case": case}
+
+    def post(self, I, inp, r):
+        case = inp["case"]
+        c = I.ctx
+        c.require(case not in ("number", "missing"), "a rules field of another type / no rules field is rejected")
+        ok = isinstance(r, SObj) and r.cls == "Built"
+        c.require(ok, "a filter object is built")
+        if ok:
+            rules = r.fields["k"].get("rules")
+            rules = I.force(rules) if not isinstance(rules, (list, str)) else rules
+            if case in ("any", "ANY", "empty_list"):
+                c.require(rules == "any", "every rule")
+            elif case == "scalar":
+                c.require(isinstance(rules, list) and len(rules) == 1 and isinstance(rules[0], SObj) and rules[0].fields["reference"] is inp["name"], "one reference to the name as written (case preserved)")
+            else:
+                c.require(isinstance(rules, list) and len(rules) == 2 and rules[0].fields["reference"] is inp["name"] and rules[1].fields["reference"] is inp["n2"], "one reference per entry as written, in order")
+            c.require(set(r.fields["k"].get("detections", {})) == {"sel"}, "condition and rules are not detections")
+
+    def raises(self, I, inp, exc):
+        I.ctx.require(exc_is(I, exc, "SigmaFilterRuleReferenceError") and inp["case"] in ("number", "missing"), f"SigmaFilterRuleReferenceError exactly for a wrong type / missing field (got {exc_name(exc)})", kind="SAFE")
+
+    def frame_ok(self, I, inp, obj, name):
+        return False
